@@ -26,6 +26,10 @@ func runFCDecision(c *core.Ctx) {
 	if stack == nil || pcF == nil {
 		return
 	}
+	var nextBody *ast.BlockStmt
+	if nf := e.Ix.LookupMethod(an.PkgDistsys, "roundRobinFairnessCounter", "NextFairnessCounter"); nf != nil {
+		nextBody = nf.Body()
+	}
 	storeTo := func(f *types.Var) func(*types.Info, ast.Node) bool {
 		return func(info *types.Info, n ast.Node) bool { _, ok := fieldIsAssigned(info, n, f); return ok }
 	}
@@ -70,8 +74,45 @@ func runFCDecision(c *core.Ctx) {
 			bools: []string{"$.counterStack[idx].id==id"}, ints: map[string]string{"idx": "", "len($.counterStack)": "", "$.counterStack[idx].ceiling": "", "ceiling": ""},
 			ref: func(a dtAtoms) bool { return a.I("idx") == a.I("len($.counterStack)") }},
 		{fn: "NextFairnessCounter", key: "advances-depth", why: "each choice of an attempt uses the next digit", find: func(info *types.Info, n ast.Node) bool {
-			inc, ok := n.(*ast.IncDecStmt)
-			return ok && inc.Tok == token.INC && an.SelectedField(info, inc.X) != nil && an.SelectedField(info, inc.X).Name() == "counterIdx"
+			isIdx := func(x ast.Expr) bool {
+				f := an.SelectedField(info, x)
+				return f != nil && f.Name() == "counterIdx"
+			}
+			if inc, ok := n.(*ast.IncDecStmt); ok {
+				return inc.Tok == token.INC && isIdx(inc.X)
+			}
+			// `$.counterIdx += 1`, or `$.counterIdx = d + 1` where d is the field or the local that was read from it
+			as, ok := n.(*ast.AssignStmt)
+			if !ok || len(as.Lhs) != 1 || len(as.Rhs) != 1 || !isIdx(as.Lhs[0]) {
+				return false
+			}
+			one := func(x ast.Expr) bool {
+				tv, has := info.Types[x]
+				return has && tv.Value != nil && tv.Value.ExactString() == "1"
+			}
+			if as.Tok == token.ADD_ASSIGN {
+				return one(as.Rhs[0])
+			}
+			be, isBin := an.Unparen(as.Rhs[0]).(*ast.BinaryExpr)
+			if as.Tok != token.ASSIGN || !isBin || be.Op != token.ADD {
+				return false
+			}
+			x, y := be.X, be.Y
+			if one(x) {
+				x, y = y, x
+			}
+			if !one(y) {
+				return false
+			}
+			if isIdx(x) {
+				return true
+			}
+			if id, isId := an.Unparen(x).(*ast.Ident); isId && nextBody != nil {
+				if d := an.SingleDef(info, nextBody, info.ObjectOf(id)); d != nil && isIdx(d) {
+					return true
+				}
+			}
+			return false
 		}, ref: func(a dtAtoms) bool { return true }},
 	}
 	runDecisionRows(c, e, an.PkgDistsys, "roundRobinFairnessCounter", rows)
